@@ -122,43 +122,35 @@ Lemma lldp_nonvacuous :
 Proof. split; vm_compute; reflexivity. Qed.
 
 (* ---------------------------------------------------------------- SSDP *)
-Theorem cache_control_classified v :
-  if known_C08_ssdp_cc v then cache_control v = Panic else safe (cache_control v).
+Lemma cc_pairs_safe n : forall all i, safe (cc_pairs n all i).
 Proof.
-  unfold known_C08_ssdp_cc, cache_control.
-  destruct (split_eq v []) as [|a [|b [|c r]]] eqn:E; cbn [List.length].
-  - sdone.
-  - sdone.
-  - change (Nat.eqb (Nat.lxor 2 2) 0) with true. cbn [cc_range List.length].
-    destruct (is_max_age a); cbn [negb andb].
-    + change (Nat.ltb 1 2) with true. sdone.
-    + destruct (is_max_age b); cbn [cc_range].
-      * change (Nat.ltb 2 2) with false. reflexivity.
-      * sdone.
-  - destruct (Nat.eqb_spec (Nat.lxor (S (S (S (List.length r)))) 2) 0) as [e|e]; [|sdone].
-    apply Nat.lxor_eq in e. discriminate.
+  induction n as [|n IH]; intros all i; cbn [cc_pairs]; [sdone|].
+  destruct (Nat.ltb_spec (i + 1) (List.length all)); [|sdone].
+  destruct (nth_error all i) as [k|] eqn:E1.
+  - destruct (is_max_age k); [|apply IH].
+    destruct (nth_error all (i + 1)) eqn:E2; [sdone|].
+    apply nth_error_None in E2. lia.
+  - apply nth_error_None in E1. lia.
 Qed.
 
-Theorem process_ssdp_classified v :
-  if known_C08_ssdp v then process_ssdp v = Panic else safe (process_ssdp v).
+Theorem cache_control_total v : safe (cache_control v).
+Proof. unfold cache_control. destruct (Nat.eqb _ 0); [apply cc_pairs_safe|sdone]. Qed.
+
+Theorem process_ssdp_total v : safe (process_ssdp v).
 Proof.
-  unfold known_C08_ssdp, process_ssdp.
-  destruct (sv_http_ok v); cbn [negb andb]; [|sdone].
-  destruct (sv_kind v =? 0); cbn [andb].
-  - destruct (sv_nts v =? 0); cbn [andb].
-    + destruct (sv_method_notify v); cbn [negb andb]; [|sdone].
-      pose proof (cache_control_classified (sv_cc v)) as H.
-      destruct (known_C08_ssdp_cc (sv_cc v)); [rewrite H; reflexivity|].
-      apply safe_bind; [exact H|intros; sdone].
+  unfold process_ssdp.
+  destruct (sv_http_ok v); cbn [negb]; [|sdone].
+  destruct (sv_kind v =? 0).
+  - destruct (sv_nts v =? 0).
+    + destruct (sv_method_notify v); cbn [negb]; [|sdone].
+      apply safe_bind; [apply cache_control_total|intros; sdone].
     + destruct (sv_nts v =? 1); sdone.
   - destruct (sv_kind v =? 1); [destruct (sv_man_ok v)|destruct (sv_status_ok v)]; sdone.
 Qed.
 
-(* "x=max-age" *)
+(* "x=max-age": the former #21 witness is parsed without panic; "max-age=1800" *)
 Definition ssdp_cc_w : bytes := [120; 61; 109; 97; 120; 45; 97; 103; 101].
-(* "max-age=1800" *)
 Definition ssdp_cc_good : bytes := [109; 97; 120; 45; 97; 103; 101; 61; 49; 56; 48; 48].
-Lemma ssdp_cc_refuted : bytes_ok ssdp_cc_w /\ known_C08_ssdp_cc ssdp_cc_w = true /\ cache_control ssdp_cc_w = Panic.
+Lemma ssdp_cc_nonvacuous :
+  bytes_ok ssdp_cc_w /\ cache_control ssdp_cc_w = Ok tt /\ cache_control ssdp_cc_good = Ok tt.
 Proof. split; [apply bytes_okb_spec; reflexivity|]. split; vm_compute; reflexivity. Qed.
-Lemma ssdp_cc_nonvacuous : known_C08_ssdp_cc ssdp_cc_good = false /\ cache_control ssdp_cc_good = Ok tt.
-Proof. split; vm_compute; reflexivity. Qed.
